@@ -21,3 +21,12 @@ package xar
 //@   on call (*XAR).checkFiles(_) ret (e): filesOK = (e == nil)
 //@   ensures @table_of_contents_signature_verified ret1 == nil ==> (old(x.CMSSignature != nil) ==> cmsOK) && (old(x.CMSSignature == nil) ==> classicOK)
 //@   ensures @member_checksums_compared_unless_skipped ret1 == nil && !skipDigests ==> filesOK
+//@
+//@ func gatherDataFiles
+//@   property C02
+//@   standalone
+//@   requires dataFiles != nil && !samearr(*dataFiles, dirFiles)
+//@   loop 0 sig "for _, f := range dirFiles" invariant -1 <= rangeindex && rangeindex < len(dirFiles) && (samearr(*dataFiles, old(*dataFiles)) || allocated(*dataFiles))
+//@   loop 0 invariant @a_member_with_archived_data_is_gathered_when_it_is_visited rangeindex >= 0 && dirFiles[rangeindex].Length != 0 ==> \
+//@        len(*dataFiles) >= 1 && (*dataFiles)[len(*dataFiles) - 1] == dirFiles[rangeindex]
+//@   modifies *dataFiles, mem(*dataFiles)
